@@ -123,7 +123,7 @@ pub fn exec_snap(ops: Vec<Op>, seed: u64, per_op: bool) -> Case {
         outs.push("1".into());
         qs.push("ids".into());
         outs.push(format!("[{}]", eg.ids().iter().map(|i| i.0.to_string()).collect::<Vec<_>>().join(",")));
-        let nclasses = eg.progress().number_of_classes;
+        let nclasses = eg.verif_measure().0;
         for i in 0..nclasses {
             qs.push(format!("alive {i}"));
             outs.push(b(eg.is_alive(Id(i))).to_string());
